@@ -291,6 +291,14 @@ def execute(sc):
                     violations.append(viol('hash.unsupported-not-reported',
                                            'hash name %s: update_entry_for_path gave %r, entry %r' % (name, r[:2], e.checksums),
                                            sig='%s:%s' % (r[0], r[1] if r[0] != 'ok' else 'ok')))
+                # spellings a crypto library may resolve through its alias table although hashlib does not list them
+                for alias in ('SHA-256', 'sha3-256', 'ripemd', 'blake2b512', 'null', 'MD5', 'SHA512', '1.3.14.3.2.26', 'ssl3-md5', 'RMD160'):
+                    if alias in hashlib.algorithms_available:
+                        continue
+                    ra = call(gemato.hash.hash_file, io.BytesIO(content), [alias])
+                    if not (ra[0] == 'GE' and ra[1] == 'UnsupportedHash'):
+                        violations.append(viol('hash.unsupported-not-reported', 'hash_file with the name %r (not in hashlib.algorithms_available) gave %r' % (
+                            alias, ra[:2] if ra[0] != 'ok' else ('ok', dict(ra[1]))), sig='alias:' + alias))
                 r = call(gemato.hash.hash_file, io.BytesIO(content), [name.lower() + '_nope'])
                 if not (r[0] == 'GE' and r[1] == 'UnsupportedHash'):
                     violations.append(viol('hash.unsupported-not-reported', 'hash_file unknown hashlib name gave %r' % (r[:2],), sig=str(r[1])))
